@@ -33,6 +33,8 @@ TRUSTED = [
     "extraction (ExtrOcamlBasic only; Z/positive/Q kept inductive), harness/driver.ml, ocamlfind ocamlopt; a sample "
     "of the same cases is re-evaluated by the kernel (vm_compute)",
 ]
+VENN_DTYPES = [("int64", "int64"), ("int32", "int16"), ("uint32", "uint16"), ("float64", "float32"),
+               ("uint64", "int64")]
 WINDOWS = ["flat", "hanning", "hamming", "bartlett", "blackman"]
 
 
@@ -49,8 +51,10 @@ def venn_call(case, chunk=None):
     """Real spikes_venn2/3.  Returns list of counts in key order, or ('exc', name)."""
     from ibldsp import spiketrains
     n = len(case["trains"])
-    st = tuple(np.array([s for s, _ in t], dtype=np.int64) for t in case["trains"])
-    ct = tuple(np.array([c for _, c in t], dtype=np.int64) for t in case["trains"])
+    # representation varies with the case: the result must not depend on the integer / float dtype
+    sdt, cdt = VENN_DTYPES[(len(case["trains"][0]) + case["chunk"] + case["nchan"]) % len(VENN_DTYPES)]
+    st = tuple(np.array([s for s, _ in t], dtype=sdt) for t in case["trains"])
+    ct = tuple(np.array([c for _, c in t], dtype=cdt) for t in case["trains"])
     fn = spiketrains.spikes_venn2 if n == 2 else spiketrains.spikes_venn3
     kw = dict(samples_binsize=case["xbin"] or None, channels_binsize=case["ybin"], fs=case["fs"],
               num_channels=case["nchan"], chunk_size=(case["chunk"] if chunk is None else chunk) or None)
@@ -184,6 +188,18 @@ def stack_oracle(word, data, ctx, desc):
     if not ok:
         ctx.fail("stack: rows are not the per-label means in sorted label order with the right fold", desc,
                  {"kind": "stack_spec"})
+
+
+def stack_int_call(word, data, dtype):
+    """default aggregate (nanmean) on integer-typed traces: the result keeps the integer dtype"""
+    from ibldsp import voltage
+    try:
+        st, fold = voltage.stack(np.array(data, dtype=dtype).reshape(len(word), -1), np.array(word))
+    except Exception as e:  # noqa
+        return ("exc", type(e).__name__), None
+    if st.dtype != np.dtype(dtype):
+        return ("exc", "dtype %s" % st.dtype), None
+    return [int(st.shape[0])] + [int(v) for v in st.flatten()] + [int(f) for f in fold], st
 
 
 def gen_stack(ctx, ncases):
@@ -539,6 +555,29 @@ def _run(ctx):
             continue
         stack_oracle(case["word"], case["data"], ctx, desc)
         add([2, len(case["word"]), case["ns"]] + case["word"] + case["data"], res, desc)
+        if dist["stack_cases"] % 3 == 0:
+            # representation: integer dtypes (result is cast back: truncated means, F-C20-b), float32
+            dt = ["int64", "int32", "int16"][(dist["stack_cases"] // 3) % 3]
+            resi, st = stack_int_call(case["word"], case["data"], dt)
+            count("stack_int_" + dt)
+            if isinstance(resi, tuple):
+                ctx.fail("stack on %s data: %s" % (dt, resi[1]), dict(desc, dtype=dt), {"kind": "stack_exception"})
+            else:
+                add([8, len(case["word"]), case["ns"]] + case["word"] + case["data"], resi, dict(desc, dtype=dt))
+                d = np.array(case["data"], dtype=float).reshape(len(case["word"]), -1)
+                labels = sorted(set(case["word"]))
+                exact = np.array([d[[i for i, w in enumerate(case["word"]) if w == g], :].mean(axis=0) for g in labels])
+                if not np.allclose(st, exact, rtol=0, atol=1e-9):
+                    ctx.fail("stack on integer traces returns truncated per-label means", dict(desc, dtype=dt),
+                             {"kind": "stack_int_dtype"})
+            from ibldsp import voltage
+            d32 = np.array(case["data"], dtype=np.float32).reshape(len(case["word"]), -1)
+            st32, _ = voltage.stack(d32, np.array(case["word"], dtype=np.int32))
+            ex32 = np.array([d32[[i for i, w in enumerate(case["word"]) if w == g], :].astype(float).mean(axis=0)
+                             for g in sorted(set(case["word"]))])
+            if st32.dtype != np.float32 or not np.allclose(st32, ex32, rtol=1e-5, atol=1e-4):
+                ctx.fail("stack on float32 traces / int32 labels is not the per-label mean", dict(desc, dtype="float32"),
+                         {"kind": "stack_spec"})
         if len(set(case["word"])) > 1 and len(set(case["word"])) < len(case["word"]):
             nontrivial.add(("stack", tuple(case["word"]), tuple(case["data"])))
     samples.append({"fn": "stack", "word": case["word"], "fold": res[-len(set(case["word"])):]})
